@@ -9,7 +9,7 @@ import re
 from typing import Any, Dict, List, Optional, Tuple
 
 from .core import AnalysisError, Source
-from .pyfront import ClassInfo, Program, dotted
+from .pyfront import ClassInfo, Program, const_value, dotted
 
 CONFIG_DIR = "jellyfysh/config_files"
 SIMPLE = {"bool", "float", "int", "str"}
@@ -125,7 +125,7 @@ class IniConfig:
             elif not p.has_default:
                 self.problems.append(f"section [{section}]: missing required argument {p.name} of {class_name}")
             else:
-                obj.args[p.name] = _literal(p.default)
+                obj.args[p.name] = const_value(self.prog, owner, p.default)
         for option in section_config:
             if option not in [p.name for p in params]:
                 self.problems.append(f"section [{section}]: option {option} is not an argument of {class_name}")
